@@ -218,7 +218,7 @@ theorem presealMelmint_tips (env : Env) (s s' : State) (h : presealMelmint env s
     obtain ⟨s3, h3, h⟩ := Outcome.bind_eq_ok h
     exact ((((createBuiltins_tips s).trans (processSwaps_tips _ _ h1)).trans
       (processDeposits_tips _ _ _ h2)).trans (processWithdrawals_tips _ _ _ h3)).trans
-      (processPegging_tips _ _ h)
+      ((createBuiltins_tips s3).trans (processPegging_tips _ _ h))
 
 theorem applyTip909_tips (s s' : State) (h : applyTip909 s = .ok s') : SameTips s s' := by
   unfold applyTip909 at h
